@@ -147,7 +147,15 @@ class World:
         self.stats["oracle"] += 4
         self.stats["accepted"] += 1
         self.stats["ticks"] += clock.ticks
-        self.stats["max_ratio_x1000"] = max(self.stats["max_ratio_x1000"], int(1000 * clock.ticks / (n + C) ** 2))
+        # head-room statistics: share of the tick budget this run used, in deciles of a percent scale
+        used = 100.0 * clock.ticks / budget(n)
+        self.stats["budget_used_pct:" + ("<1" if used < 1 else "<5" if used < 5 else "<20" if used < 20 else "<50" if used < 50 else ">=50")] += 1
+        for u, _ in net.log:
+            d = docs.get(u)
+            if d and d.get("raw_hex"):
+                self.stats["probe:undecodable_import"] += 1
+            if d and d.get("cut") is not None:
+                self.stats["probe:torn_import"] += 1
         # fetch bound: a cycle must terminate; every fetch is one traversal of an @import edge
         edges = sum((d.get("text") or "").count("@import") for d in docs.values()) + root.count("@import") + t2.count(b"@import" if isinstance(t2, bytes) else "@import")
         if len(net.log) > 4 * (edges + 1) * (len(docs) + 1) + 8:
